@@ -111,7 +111,7 @@ FamC05(dummy) ==
 StepC03(b, k) ==
   IF k = 0 THEN <<Item(IdOf(b, 0, 1), "and_then", "call", <<>>)>>
   ELSE <<Item(IdOf(b, k, 1), "and_then", "block", <<>>), Item(IdOf(b, k, 2), "map", "call", <<>>)>>
-ProfC03 == IF Tier = "quick" THEN {pr \in Profiles(3, 2) : TRUE} ELSE Profiles(3, 3)
+ProfC03 == IF Tier = "quick" THEN Profiles(3, 2) \cup {<<3>>, <<3, 3>>, <<3, 1, 2>>} ELSE Profiles(3, 3)
 FamC03s(dummy) ==
   {Run(P, <<>>, ItemIds(P, {"and_then"})) :
      P \in {Build(Kind(FALSE, t, TRUE), "res", pr, StepC03, NoName, ExprInit, "none") : t \in BOOLEAN, pr \in ProfC03}}
